@@ -36,7 +36,13 @@ package nsqd
 //@   ensures[others] gid != id ==> (atunlock(inFlight(c, gid)) <==> atlock(inFlight(c, gid))) && atunlock(c.inFlightMessages[gid]) == atlock(c.inFlightMessages[gid])
 //@   ensures[len] atunlock(len(c.inFlightMessages)) == atlock(len(c.inFlightMessages)) - (result1 == nil ? 1 : 0)
 //@   modifies c.inFlightMessages, c.inFlightPQ, mapstore(map[MessageID]*Message), lastPopped
-//@   onreturn result1 == nil ==> lastPopped := result0
+//@   onreturn lastPopped := (result1 == nil ? result0 : lastPopped)
+//   what was asked and what came back (ghosts declared in zz_contracts_kchannel_verif.go, grouped with lastPopped)
+//@   onreturn kPops := kPops + 1
+//@   onreturn kPopErr := result1
+//@   onreturn kPopChan := c
+//@   onreturn kPopClient := clientID
+//@   onreturn kPopID := id
 //@   ensures[popped-nonnil] result1 == nil ==> result0 != nil
 
 //@ func (c *Channel) pushInFlightMessage(msg *Message) error
@@ -62,6 +68,9 @@ package nsqd
 //@   requires c != nil && msg != nil
 //@   lockassume msg.index == -1 || member(c.inFlightPQ, len(c.inFlightPQ), msg)
 //@   ensures[out] atunlock(msg.index) == -1
+//   (area K) which message the heap was asked to drop (ghosts declared in zz_contracts_kchannel_verif.go, grouped with lastPopped)
+//@   onreturn kHeapRemoves := kHeapRemoves + 1
+//@   onreturn kHeapRemovedMsg := msg
 //@   modifies c.inFlightMessages, c.inFlightPQ, mapstore(map[MessageID]*Message), elems(*Message), Message.index, deref(inFlightPqueue)
 
 // Options are stored once at start-up and swapped atomically afterwards; the pointer is never nil.
@@ -73,9 +82,16 @@ package nsqd
 // initPQ (start-up and Empty) replaces both queues. Under inFlightMutex it must honour the mutex's
 // guarantee: a message taken out of the heap gets back-index -1.
 //@ func (c *Channel) initPQ()
-//@   props C08 C02
+//@   props C08 C02 C13
+//@   nochan
 //@   requires c != nil && c.nsqd != nil
-//@   modifies c.inFlightMessages, c.inFlightPQ, c.deferredMessages, c.deferredPQ, mapstore(map[MessageID]*Message), mapstore(map[MessageID]*pqueue.Item), Message.index, elems(*Message), elems(*pqueue.Item)
+//   (area K) frame, so that callers (Channel.Empty) keep what they know; the deferred half is empty when its
+//   mutex is released (the in-flight half cannot be named here: atunlock() is the LAST unlock, see ENGINE GAPS);
+//   ghosts kInitPQs / kInitPQChan (zz_contracts_kchannel_verif.go) record the call.
+//@   ensures[deferred-emptied] atunlock(len(c.deferredMessages)) == 0 && atunlock(len(c.deferredPQ)) == 0
+//@   modifies c.inFlightMessages, c.inFlightPQ, c.deferredMessages, c.deferredPQ, mapstore(map[MessageID]*Message), mapstore(map[MessageID]*pqueue.Item), Message.index
+//@   onreturn kInitPQs := kInitPQs + 1
+//@   onreturn kInitPQChan := c
 //@   loop 0
 //@     invariant atlock(bidx(c.inFlightPQ, len(c.inFlightPQ))) && c.inFlightPQ == atlock(c.inFlightPQ)
 //@     invariant[elems-kept] forall k int :: {c.inFlightPQ[k]} 0 <= k && k < len(c.inFlightPQ) ==> c.inFlightPQ[k] == atlock(c.inFlightPQ[k])
@@ -112,7 +128,7 @@ package nsqd
 //@   ensures[deadline-capped] result == nil ==> lastPopped != nil && lastPopped.pri ==
 //@        min(unixNano(lastNow) + clientMsgTimeout, unixNano(lastPopped.deliveryTS) + curOpts(c.nsqd).MaxMsgTimeout)
 //@   ensures[still-owed] result == nil ==> lastPushed == lastPopped
-//@   modifies Message.pri, lastNow, lastPopped, lastPushed, c.inFlightMessages, c.inFlightPQ, mapstore(map[MessageID]*Message), elems(*Message), Message.index, deref(inFlightPqueue)
+//@   modifies Message.pri, lastNow, lastPopped, lastPushed, kHeapRemoves, c.inFlightMessages, c.inFlightPQ, mapstore(map[MessageID]*Message), elems(*Message), Message.index, deref(inFlightPqueue)
 //   what was asked and what came back, for the TOUCH handler's contract (ghosts declared in zz_contracts_protocol_consumer_verif.go)
 //@   onreturn touchCalls := touchCalls + 1
 //@   onreturn touchChan := c
@@ -125,7 +141,7 @@ package nsqd
 //@   props C02 C13
 //@   requires c != nil
 //@   ensures[finished] result == nil ==> lastPopped != nil
-//@   modifies lastPopped, c.inFlightMessages, c.inFlightPQ, mapstore(map[MessageID]*Message), elems(*Message), Message.index, deref(inFlightPqueue)
+//@   modifies lastPopped, kHeapRemoves, c.inFlightMessages, c.inFlightPQ, mapstore(map[MessageID]*Message), elems(*Message), Message.index, deref(inFlightPqueue)
 //@   onreturn finCalls := finCalls + 1
 //@   onreturn finChan := c
 //@   onreturn finClient := clientID
